@@ -291,9 +291,12 @@ func loadKnown() {
 	if path == "" {
 		path = "/verif/known_findings.txt"
 	}
-	b, err := os.ReadFile(path)
-	if err != nil {
-		return
+	b, _ := os.ReadFile(path)
+	extra, _ := filepath.Glob(filepath.Join(filepath.Dir(path), "known_findings.d", "*.txt"))
+	for _, f := range extra {
+		if x, err := os.ReadFile(f); err == nil {
+			b = append(append(b, '\n'), x...)
+		}
 	}
 	for _, line := range strings.Split(string(b), "\n") {
 		line = strings.TrimSpace(line)
